@@ -307,7 +307,13 @@ func translateTarget(t Target) (string, error) {
 			sb.WriteString("(* go2coq: FAILED block " + b.Name + ": function not found *)\n\n")
 			continue
 		}
-		def, err := tr.absBlock(b, fd)
+		var def string
+		var err error
+		if b.Cond {
+			def, err = tr.absCond(b, fd)
+		} else {
+			def, err = tr.absBlock(b, fd)
+		}
 		tr.report(b.Name, fd, err)
 		if err != nil {
 			sb.WriteString("(* go2coq: FAILED block " + b.Name + ": " + cm(err.Error()) + " *)\n\n")
@@ -884,6 +890,9 @@ func (tr *translator) calleeName(fun ast.Expr) (name string, recvExpr ast.Expr, 
 					return f.Name, nil, false, true
 				}
 			}
+			if m, ok := tr.siblingModule(f.Name); ok {
+				return m + "." + f.Name, nil, false, true
+			}
 		}
 	case *ast.SelectorExpr:
 		if sel := tr.pi.info.Selections[f]; sel != nil && sel.Kind() == types.MethodVal {
@@ -910,6 +919,12 @@ func (tr *translator) calleeName(fun ast.Expr) (name string, recvExpr ast.Expr, 
 						known = true
 					}
 				}
+				if !known {
+					if m, ok := tr.siblingModule(nm.Obj().Name() + "." + f.Sel.Name); ok {
+						mod = m + "."
+						known = true
+					}
+				}
 			} else if m, ok := pkgToMod[pkgPath]; ok {
 				mod = m + "."
 				known = true
@@ -933,6 +948,22 @@ func (tr *translator) calleeName(fun ast.Expr) (name string, recvExpr ast.Expr, 
 		}
 	}
 	return "", nil, false, false
+}
+
+// siblingModule: a function of the SAME package translated by another module that this one lists in Requires
+func (tr *translator) siblingModule(fn string) (string, bool) {
+	for _, r := range tr.t.Requires {
+		for _, t := range targets {
+			if t.Module == r && t.Dir == tr.t.Dir && t.GOARCH == tr.t.GOARCH {
+				for _, n := range t.Funcs {
+					if n == fn {
+						return t.Module, true
+					}
+				}
+			}
+		}
+	}
+	return "", false
 }
 
 func (tr *translator) stateOf(pkgPath, typeName string) ([]string, bool) {
@@ -997,6 +1028,16 @@ func (tr *translator) call(e *ast.CallExpr) string {
 				return "(bits_Len64 " + tr.expr(e.Args[0]) + ")"
 			case "math.Float32bits", "math.Float64bits", "math.Float32frombits", "math.Float64frombits":
 				return tr.expr(e.Args[0])
+			case "math.IsNaN", "math.IsInf":
+				// abs mode only (the primitives f64_isnan / f64_isinf on IEEE bit patterns come with the module prelude absFloatPrelude)
+				if tr.abs != nil {
+					if w, isf := isFloat(tr.typeOf(e.Args[0])); isf && w == 64 {
+						if full == "math.IsNaN" {
+							return "(f64_isnan " + tr.expr(e.Args[0]) + ")"
+						}
+						return "(f64_isinf " + tr.expr(e.Args[0]) + " " + tr.expr(e.Args[1]) + ")"
+					}
+				}
 			case modPath + "/meta.NewError", "errors.New", "fmt.Errorf":
 				return "Err_NewError"
 			case "unicode/utf8.ValidString":
